@@ -51,7 +51,8 @@ class AggSystem(evx.System):
 
   def __init__(self, p):
     self.p = p
-    self.rules = p['rules']            # [(output, input, method)]
+    self.rulesets = [p['rules']] + ([p['alt_rules']] if p.get('alt_rules') else [])
+    self.rules = p['rules']            # [(output, input, method)] currently in force
     self.m = p['m']
     self.inputs = p.get('inputs', ('x.a', 'x.b'))
 
@@ -102,7 +103,9 @@ class AggSystem(evx.System):
     buffers.BufferManager.clear()
     if RuleManager.read_task.running:
       RuleManager.read_task.stop()
-    if getattr(self, 'parsed', None) is not None:
+    self.active = 0
+    self.rules = self.rulesets[0]
+    if getattr(self, 'parsed', None) is not None and len(self.rulesets) == 1:
       RuleManager.rules = list(self.parsed)
     else:
       self._parse_rules(RuleManager)
@@ -116,9 +119,10 @@ class AggSystem(evx.System):
     self.received = {}     # (agg, I) -> [values]
     self.upto = {}         # (agg, I) -> number of values covered by the last emission
     self.horizon_ok = {}   # (agg, I) -> bool
+    self.reload_mark = {}  # (agg, I) -> number of values received before the last rules reload
     self.idle_flushes = 0
 
-  def _parse_rules(self, RuleManager):
+  def _parse_rules(self, RuleManager, force=True):
     path = os.path.join(env.scratch(), 'agg-rules-%d.conf' % os.getpid())
     with open(path, 'w') as f:
       for out, inp, method in self.rules:
@@ -126,7 +130,8 @@ class AggSystem(evx.System):
     AggSystem._tick[0] += 10
     os.utime(path, (AggSystem._tick[0], AggSystem._tick[0]))
     RuleManager.rules_file = path
-    RuleManager.rules_last_read = 0.0
+    if force:
+      RuleManager.rules_last_read = 0.0
     RuleManager.read_rules()
     if len(RuleManager.rules) != len(self.rules):
       raise core.HarnessError('RuleManager parsed %d rules of %d' % (len(RuleManager.rules), len(self.rules)))
@@ -150,6 +155,8 @@ class AggSystem(evx.System):
         evs.append(('dp', metric, ts_kind))
     evs.append(('tick', 5))
     evs.append(('tick', 10))
+    if len(self.rulesets) > 1:
+      evs.append(('reload',))
     return evs
 
   def now_interval(self):
@@ -181,6 +188,20 @@ class AggSystem(evx.System):
         return ('forwarding', 'process(%r) yielded %r, expected %r (FORWARD_ALL=%r, aggregates fed: %r)' % (
           metric, out, want, self.p.get('forward_all', True), sorted(aggs)))
       return None
+    if ev[0] == 'reload':
+      # the rules file is rewritten (same patterns, another method) and the periodic read_rules() tick runs
+      self.active = 1 - self.active
+      self.rules = self.rulesets[self.active]
+      try:
+        self._parse_rules(self.RuleManager, force=False)
+      except Exception as e:   # noqa
+        return ('exception', 'rules reload raised %r' % (e,))
+      # values received but not emitted before a reload may be dropped ("clearing aggregation buffers") or kept;
+      # either way they are no longer owed, and what is emitted from now on is the NEW rule's function
+      for key, vals in self.received.items():
+        self.reload_mark[key] = len(vals)
+        self.horizon_ok[key] = False
+      return None
     # tick
     del self.emitted[:]
     del self.flushed[:]
@@ -210,7 +231,8 @@ class AggSystem(evx.System):
         return ('re-emitted-without-new-data', '%r interval %r re-emitted (%r) although no new datapoint arrived' % (agg, interval, value))
       method = [m for o, i, m in self.rules if self._rule_feeds(o, i, agg)][0]
       f = ref_func(method)
-      js = [j for j in range(0, L + 1) if f(vals[j:]) == value]
+      mark = self.reload_mark.get(key, 0)     # values received before a rules reload may have been dropped with the buffers
+      js = [j for j in range(0, max(L, mark) + 1) if j < len(vals) and f(vals[j:]) == value]
       if not js:
         return ('wrong-aggregate:' + method, '%r interval %r emitted %r; values received %r (first %d already emitted): no suffix '
                 'starting at or before the last emission gives that %s' % (agg, interval, value, vals, L, method))
@@ -231,12 +253,13 @@ class AggSystem(evx.System):
     # forget reference entries far beyond anything the alphabet can still address; they must have been emitted
     for key in list(self.received):
       if key[1] < cur - (self.m + 6) * F:
-        if self.upto.get(key, 0) != len(self.received[key]):
+        if max(self.upto.get(key, 0), self.reload_mark.get(key, 0)) < len(self.received[key]):
           return ('never-emitted', 'values %r received for %r interval %r were never covered by an emission' % (
             self.received[key][self.upto.get(key, 0):], key[0], key[1]))
         del self.received[key]
         self.upto.pop(key, None)
         self.horizon_ok.pop(key, None)
+        self.reload_mark.pop(key, None)
     return None
 
   def _rule_feeds(self, out, inp, agg):
@@ -253,8 +276,9 @@ class AggSystem(evx.System):
                          None if b.inactive_since is None else b.inactive_since - cur) for i, b in buf.interval_buffers.items()))
       bufs.append((agg, buf.configured, ib))
     timers = tuple(sorted(round(dc.getTime() - now, 6) for dc in self.clock.getDelayedCalls()))
-    ref = tuple(sorted((k[0], k[1] - cur, len(v), self.upto.get(k, 0), self.horizon_ok.get(k, True)) for k, v in self.received.items()))
-    return (round(now % F, 6), tuple(bufs), timers, ref)
+    ref = tuple(sorted((k[0], k[1] - cur, len(v), self.upto.get(k, 0), self.horizon_ok.get(k, True), self.reload_mark.get(k, 0))
+                       for k, v in self.received.items()))
+    return (round(now % F, 6), tuple(bufs), timers, ref, self.active)
 
   def on_new_state(self):
     """Quiescence probe (destructive): with no more input everything received gets emitted once, no
@@ -271,7 +295,7 @@ class AggSystem(evx.System):
       if v:
         return v
     for key, vals in self.received.items():
-      if self.upto.get(key, 0) != len(vals):
+      if max(self.upto.get(key, 0), self.reload_mark.get(key, 0)) < len(vals):
         return ('never-emitted', 'values %r received for %r interval %r were never covered by an emission' % (
           vals[self.upto.get(key, 0):], key[0], key[1]))
     BM = self.buffers.BufferManager
@@ -303,6 +327,11 @@ def stream_configs(ctx):
   cfgs.append(dict({'rules': [('agg.one', 'x.a', 'sum'), ('agg.all', 'x.*', 'sum')], 'm': 2, 'forward_all': False}, **two))
   cfgs.append(dict({'rules': [('x.a', 'x.a', 'sum'), ('agg.all', 'x.*', 'sum')], 'm': 1, 'forward_all': True}, **two))
   cfgs.append({'rules': [('x.a', 'x.a', 'sum')], 'm': 1, 'forward_all': False, 'wbf': 5})
+  # the rules file is edited while series are live: same patterns, another method
+  cfgs.append({'rules': [('agg.<p>', '<p>.*', 'sum')], 'alt_rules': [('agg.<p>', '<p>.*', 'avg')], 'm': 2, 'inputs': ('x.a',),
+               'kinds': ('now', 'prev')})
+  cfgs.append({'rules': [('agg.<p>', '<p>.*', 'max')], 'alt_rules': [('agg.<p>', '<p>.*', 'count')], 'm': 1, 'inputs': ('x.a',),
+               'kinds': ('now', 'late3')})
   return cfgs
 
 
